@@ -8,8 +8,11 @@ use std::hash::{Hash, Hasher};
 use std::io::Write as _;
 use std::process::{Command, Stdio};
 
-pub const SHAPES: [&str; 9] = ["seq-inline", "seq-lines", "map-lines", "explicit-key", "flow-seq", "flow-map", "flow-map-json", "alternating", "block-then-flow"];
-pub const APIS: [&str; 10] = ["iterate", "push", "load", "load-owned", "load-marked", "load+clone", "load+eq", "load+hash", "load+emit", "load-thread"];
+pub const SHAPES: [&str; 10] = ["seq-inline", "seq-lines", "map-lines", "explicit-key", "flow-seq", "flow-map", "flow-map-json", "alternating", "block-then-flow", "anchored-seq-inline"];
+/// `*-1MiB`: the same scenario on a thread with a 1 MiB stack (the budget of the stack probes): the
+/// pull and push interfaces keep their continuation on the heap, so their stack use must not depend
+/// on the depth at all, and a per-level frame anywhere in scanner or parser shows up ten times earlier.
+pub const APIS: [&str; 12] = ["iterate", "push", "load", "load-owned", "load-marked", "load+clone", "load+eq", "load+hash", "load+emit", "load-thread", "iterate-1MiB", "push-1MiB"];
 
 pub fn make_input(shape: &str, depth: usize) -> String {
     make_input_leaf(shape, depth, None)
@@ -25,7 +28,7 @@ pub fn make_input_leaf(shape: &str, depth: usize, leaf: Option<&str>) -> String 
     if let Some(l) = leaf {
         // every shape has exactly one innermost scalar, written last before the closers
         let (pat, with): (&str, String) = match shape {
-            "seq-inline" | "explicit-key" => ("a\n", format!("{l}\n")),
+            "seq-inline" | "explicit-key" | "anchored-seq-inline" => ("a\n", format!("{l}\n")),
             "seq-lines" | "alternating" => ("a\n", format!("{l}\n")),
             "map-lines" => ("v\n", format!("{l}\n")),
             "flow-seq" => ("[]", format!("[{l}]")),
@@ -44,6 +47,14 @@ fn make_input_default(shape: &str, depth: usize) -> String {
     let mut s = String::new();
     match shape {
         "seq-inline" => {
+            for _ in 0..depth {
+                s.push_str("- ");
+            }
+            s.push_str("a\n");
+        }
+        "anchored-seq-inline" => {
+            // the whole nest carries an anchor (the loader keeps a copy of every anchored node)
+            s.push_str("&a\n");
             for _ in 0..depth {
                 s.push_str("- ");
             }
@@ -278,8 +289,9 @@ pub fn child(shape: &str, depth: usize, api: &str) {
     }
     let input = make_input(shape, depth);
     crumb(&format!("input-bytes {}", input.len()));
-    let api_owned = api.to_string();
-    let is_thread = api == "load-thread";
+    let small_stack = api.ends_with("-1MiB");
+    let api_owned = api.trim_end_matches("-1MiB").to_string();
+    let is_thread = api == "load-thread" || small_stack;
     let run = move || {
         let api: &str = &api_owned;
         match api {
@@ -378,7 +390,8 @@ pub fn child(shape: &str, depth: usize, api: &str) {
     };
     if is_thread {
         // a thread with an explicit 8 MiB stack (the default of a spawned std thread is 2 MiB)
-        let h = std::thread::Builder::new().stack_size(8 * 1024 * 1024).spawn(run).expect("spawn");
+        let size = if small_stack { 1024 * 1024 } else { 8 * 1024 * 1024 };
+        let h = std::thread::Builder::new().stack_size(size).spawn(run).expect("spawn");
         let _ = h.join();
     } else {
         run();
@@ -497,7 +510,9 @@ pub fn run_scenario(shape: &str, depth: usize, api: &str) -> Outcome {
 /// Block shapes can nest without limit; flow shapes are cut off by the scanner's flow-depth limit
 /// (an error value beyond 255 levels), so a deep tree can only come from block nesting.
 fn shape_class(shape: &str) -> &'static str {
-    if shape.starts_with("flow-") {
+    if shape.starts_with("anchored-") {
+        "anchored-block-nesting"
+    } else if shape.starts_with("flow-") {
         "flow-nesting"
     } else {
         "block-nesting"
@@ -526,7 +541,9 @@ pub fn run_c11(tier: &str, _seed: u64, shard: u64, nshards: u64, stats: &mut Sta
                 continue;
             }
             let mut first_death: Option<(usize, Outcome)> = None;
-            for &d in depths {
+            let deep_ok = matches!(*api, "iterate" | "push" | "iterate-1MiB" | "push-1MiB");
+            let ladder: Vec<usize> = if deep_ok && tier != "thorough" { depths.iter().copied().chain([30_000, 100_000]).collect() } else { depths.to_vec() };
+            for &d in &ladder {
                 if d > max_depth_for(shape) {
                     continue;
                 }
